@@ -1,5 +1,6 @@
 import Pyunicorn.Model.Proto
 import Pyunicorn.Model.Memo
+import Pyunicorn.Model.MemoNested
 import Pyunicorn.Generated.StructC01
 /-! Line-protocol driver for C01. -/
 open Pyunicorn Pyunicorn.Proto Pyunicorn.Memo Pyunicorn.Generated
@@ -33,8 +34,55 @@ def runHist (t : Table) (ops : List Op) : List String :=
       out :: go r.1 rest
   go State.init ops
 
+def ntableOf (name : String) : Option NTable :=
+  (StructC01.allNTables.find? (·.1 == name)).map (·.2)
+
+def showNatsD (xs : List Nat) : String :=
+  if xs.isEmpty then "-" else join (xs.map toString) ","
+
+/-- nested histories: per op `-`, or the event log of the query `m.a.H|M` joined by `+`,
+followed by `=1`/`=0` (returned value equals the fresh value) -/
+def runNHist (t : NTable) (ops : List Op) : List String :=
+  let rec go (s : State) : List Op → List String
+    | [] => []
+    | op :: rest =>
+      let r := nstep t s op
+      let out := match op, r.2 with
+        | .query mi a, some (v, c) =>
+          let log := (nquery t (mi + 1) s mi a).log
+          join (log.map fun (m, a, h) => s!"{m}.{a}.{if h then "H" else "M"}") "+" ++
+            (if v == c then "=1" else "=0")
+        | _, _ => "-"
+      out :: go r.1 rest
+  go State.init ops
+
 def answer (toks : List String) : String :=
   match toks with
+  | ["nwf", c] => match ntableOf c with
+      | some t => if nwf t then "1" else "0"
+      | none => "no-such-class"
+  | ["acyclic", c] => match ntableOf c with
+      | some t => if t.acyclic then "1" else "0"
+      | none => "no-such-class"
+  | ["flatcovers", c] => match ntableOf c, tableOf c with
+      | some t, some f => if flatCovers t f then "1" else "0"
+      | _, _ => "no-such-class"
+  | ["noffending", c] => match ntableOf c with
+      | some t => let o := noffending t
+          if o.isEmpty then "-" else join (o.map fun (a, b, d) => s!"{a}:{b}:{d}") ","
+      | none => "no-such-class"
+  | ["closure", c, mi, a] => match ntableOf c, mi.toNat?, a.toNat? with
+      | some t, some mi, some a => showNatsD (closure t (mi + 1) mi a).eraseDups
+      | _, _, _ => "bad-request"
+  | ["callees", c, mi, a] => match ntableOf c, mi.toNat?, a.toNat? with
+      | some t, some mi, some a => showNatsD (callees t (mi + 1) mi a).eraseDups
+      | _, _, _ => "bad-request"
+  | ["maxsize", c] => match ntableOf c with
+      | some t => match t.maxsize with | some k => toString k | none => "none"
+      | none => "no-such-class"
+  | ["nhist", c, ops] => match ntableOf c with
+      | some t => join (runNHist t ((splitTok ops ",").filterMap parseOp)) ","
+      | none => "no-such-class"
   | ["wf", c] => match tableOf c with
       | some t => if wf t then "1" else "0"
       | none => "no-such-class"
